@@ -101,7 +101,7 @@ def extra_parts(ck, tier, rng):
 def main(tier, seed):
     return sprops.main_S(PID, tier, seed, {96}, "Props.C12",
                          ["Model/Sim.v", "Model/Master.v", "Oracle/SimCheck.v", "Oracle/SimOracle.v", "Oracle/MasterOracle.v",
-                          "Proofs/MasterP.v", "Props/C12.v"],
+                          "Proofs/MasterP.v", "Model/SimTime.v", "Proofs/SimTimeP.v", "Props/C12.v"],
                          "pacing", "callbacks", extra=extra_parts)
 
 
